@@ -44,15 +44,41 @@ def load_spec(load, stall):
     return [kind, scale * stall]
 
 
-def check_case(acc, chain_l, cur, locking, load, duty, init=None):
+def redeclare(spec):
+    """Every jointed gear of the chain was earlier the slave of a mating with a spare gear of its own kind
+    (a relation the user then replaced by the joint)."""
+    spares, pre = [], []
+    n = len(spec['elements'])
+    for i, link in enumerate(spec['links']):
+        e = spec['elements'][i + 1]
+        if link['t'] != 'J' or e['k'] not in ('S', 'H', 'Ww', 'Wg'):
+            continue
+        idx = n + len(spares)
+        if e['k'] in ('S', 'H'):
+            sp = dict(e, z=17)
+            pre.append([idx, i + 1, {'t': 'G', 'eta': 0.5}])
+        elif e['k'] == 'Ww':
+            sp = {'k': 'Wg', 'starts': 1, 'J': e['J'], 'beta': e['beta'], 'alpha': e['alpha']}
+            pre.append([idx, i + 1, {'t': 'W', 'f': 0.05}])
+        else:
+            sp = {'k': 'Ww', 'z': 33, 'J': e['J'], 'beta': e['beta'], 'alpha': e['alpha']}
+            pre.append([idx, i + 1, {'t': 'W', 'f': 0.05}])
+        spares.append(sp)
+    spec['spares'], spec['pre_links'] = spares, pre
+    return bool(pre)
+
+
+def check_case(acc, chain_l, cur, locking, load, duty, init=None, redeclared=False):
     chain_l = [tuple(x) for x in chain_l]
     spec = menu.assign(chain_l, motor=menu.MOTOR_CUR if cur else menu.MOTOR_PLAIN, locking=locking,
                        init=init or {'theta': [0.2, 'rad'], 'w': [1.5, 'rad/s']})
+    if redeclared and not redeclare(spec):
+        return
     stall = menu.stall_at_output(spec)
     spec['load'] = load_spec(load, stall)
     d = len(duty)
     case = {'kind': 'case', 'chain': chain_l, 'cur': cur, 'locking': locking, 'load': list(load),
-            'duty': list(duty)}
+            'duty': list(duty), 'redeclared': redeclared}
     m, info = sim.run_schedule(spec, [('run', DT, [DT[0] * (d - 1), 'sec'], list(duty), None)])
     acc.executions += 1
     if info['error']:
@@ -65,13 +91,14 @@ def check_case(acc, chain_l, cur, locking, load, duty, init=None):
     def emit(sfx, clause, k, detail):
         dd = dict(detail)
         dd.update(instant=k, chain=name)
-        acc.violation(f'C02/{sfx}', clause, case, dd)
+        acc.violation(f'C02/{sfx}' + ('/after-redeclaration' if redeclared else ''), clause, case, dd)
 
     # efficiency attributes: joints must carry 1
     for i in range(1, chain.n):
         eta = m.elements[i].master_gear_efficiency
         if not si.close(eta, chain.etas[i], 1e-12):
-            acc.violation(f'C02/efficiency-attribute/{spec["links"][i-1]["t"]}', 'efficiency attribute = reference', case,
+            acc.violation(f'C02/efficiency-attribute/{spec["links"][i-1]["t"]}' + ('/after-redeclaration' if redeclared else ''),
+                          'efficiency attribute = reference (1 for a joint)', case,
                           {'i': i, 'got': eta, 'ref': chain.etas[i]})
     load_fn = lambda k, t, th, w: sim.load_value(spec['load'], k, t, th, w)
     acc.transitions += traj.torques(obs, chain, emit, load_fn=load_fn, load_calls=m.load_calls)
@@ -94,6 +121,9 @@ def run_shard(shard, tier):
         for load in LOADS:
             for duty in itertools.product(DUTIES, repeat=d):
                 check_case(acc, chain_l, shard['cur'], locking, load, duty)
+                if duty[0] == 1 and duty[-1] != duty[0]:
+                    # the same chain assembled after a history of re-declared relations
+                    check_case(acc, chain_l, shard['cur'], locking, load, duty, redeclared=True)
                 if first:
                     acc.sample({'chain': menu.chain_name(chain_l), 'motor_with_current': shard['cur'],
                                 'locking': locking, 'load': load, 'duty_sequence': duty})
@@ -104,6 +134,6 @@ def run_shard(shard, tier):
 def replay(case):
     acc = Acc()
     if case.get('kind') == 'case':
-        check_case(acc, case['chain'], case['cur'], case['locking'], tuple(case['load']), tuple(case['duty']))
+        check_case(acc, case['chain'], case['cur'], case['locking'], tuple(case['load']), tuple(case['duty']), redeclared=case.get('redeclared', False))
         return acc.violations
     return run_shard(case['shard'], 'quick').violations
